@@ -409,6 +409,73 @@ def run(rep: Report, ctx: Any) -> str:
                   rhs=f"{prm}=<the caller's {prm}>")
     rep.floor("descent_parameters_forwarded", len(forwards), 7)
 
+    # ---- R20.10 ------------------------------------------------------------------------------------------------------------
+    # R20.7 makes every position decode through the discriminated union; which member a raw object becomes is then decided by the
+    # discriminator function alone.  "All malformed reference strings" must still be references (so that the item that uses them gets
+    # the diagnostic): a mapping that HAS the key `$ref` is a Reference whatever is stored under it - empty, null, not a string - and
+    # whatever else the mapping holds.  Decided as a truth table over the atoms of the discriminator's tests: with "is a mapping" and
+    # "has the key" true and every atom that depends on the VALUE under the key (`.get("$ref")`, `[\"$ref\"]`) free, every path that can
+    # be taken returns the tag attached to Reference; likewise an object that already is a Reference instance.  Atoms the rule cannot read
+    # make the verdict an analysis error, not a finding.
+    rep.rule("R20.10", "the reference discriminator of the document model decides by the PRESENCE of the `$ref` key (and by being a "
+                       "Reference instance), never by the value stored under it: under every assignment of its value-dependent atoms a "
+                       "mapping that has the key gets the tag of Reference")
+    n_disc = 0
+    for m in doc_model:
+        for ann in [n for n in ast.walk(m.tree) if isinstance(n, ast.Subscript) and (dotted(n.value) or "").rsplit(".", 1)[-1] == "Annotated"]:
+            parts = list(ann.slice.elts) if isinstance(ann.slice, ast.Tuple) else [ann.slice]
+            discs = [c for x in parts[1:] for c in ast.walk(x) if isinstance(c, ast.Call) and call_name(c).rsplit(".", 1)[-1] == "Discriminator"]
+            if not discs or "Reference" not in {nm for nm, _ in _type_names(parts[0])}:
+                continue
+            ref_tags = {c.args[0].value for inner in ast.walk(parts[0]) if isinstance(inner, ast.Subscript) and
+                        (dotted(inner.value) or "").rsplit(".", 1)[-1] == "Annotated" and isinstance(inner.slice, ast.Tuple) and
+                        (dotted(inner.slice.elts[0]) or "").rsplit(".", 1)[-1] == "Reference"
+                        for x in inner.slice.elts[1:] for c in ast.walk(x)
+                        if isinstance(c, ast.Call) and call_name(c).rsplit(".", 1)[-1] == "Tag" and c.args and isinstance(c.args[0], ast.Constant)}
+            for d in discs:
+                fn_name = dotted(d.args[0]) if d.args else None
+                if fn_name is None or fn_name not in m.functions:
+                    continue        # a field-name discriminator (string) does not inspect raw objects
+                n_disc += 1
+                rep.require(len(ref_tags) == 1, f"the tag attached to Reference in the union discriminated by {fn_name}")
+                verdict = _discriminates_by_presence(m.functions[fn_name], next(iter(ref_tags)))
+                rep.require(verdict is not None and verdict[0] != "unreadable",
+                            f"tests of {fn_name} readable as presence of / value under the `$ref` key ({verdict[1] if verdict else 'no tagged return'})")
+                rep.check(verdict[0] == "ok", "R20.10", f"{m.name.replace('openapi_python_client.', '')}.{fn_name}::reference-by-key-presence",
+                          f"an object that has the `$ref` key (or is a Reference) is not always decoded as a Reference ({verdict[1]}): a "
+                          "malformed reference (empty / null / non-string value) becomes the other member - a silent Any in a schema "
+                          "position, a validation failure of the whole document elsewhere - instead of a diagnostic for the item that uses it",
+                          where(m.functions[fn_name], m.functions[fn_name].node), lhs=verdict[1], rhs=f"returns {next(iter(ref_tags))!r} whenever the key is present")
+    rep.floor("reference_discriminators", n_disc, 1)
+
+    # ---- R20.11 ------------------------------------------------------------------------------------------------------------
+    # "A circular reference ... affects nothing else": the walks over the reference registry and the dependency graph (class lookup
+    # through references, propagation of a removal to the dependants) run on graphs the document can make cyclic, so every recursive
+    # cycle of the call graph that reads those registries needs a ranking argument (a visited mark made BEFORE the recursion, structural
+    # descent, ...).  C06 decides exactly this for every recursive cycle (R06.4); it is claimed here, under C20's id and with C06's
+    # construct keys, for the cycles that walk the reference graph.
+    from .c06 import _cycle_pattern, _sccs
+
+    rep.rule("R20.11", "every recursive cycle of the parser that reads the reference registry (`classes_by_reference`) or the dependency "
+                       "graph (`dependencies`) terminates on cyclic reference graphs: it has one of the ranking arguments of C06's R06.4 "
+                       "(structural descent | fresh element | removal before recursing | growing bounded set | progress rounds)")
+    it, _ = ctx.flow
+    edges = {a: {b for b in bs if b in it.func_by_qual} for a, bs in it.call_edges.items()}
+    rec = [sorted(c) for c in _sccs(edges) if len(c) > 1 or next(iter(c)) in edges.get(next(iter(c)), ())]
+    n_walks = 0
+    for comp in sorted(rec):
+        if not any(isinstance(n, ast.Attribute) and n.attr in ("classes_by_reference", "dependencies") for q in comp for n in ast.walk(it.func_by_qual[q].node)):
+            continue
+        n_walks += 1
+        names = [q.replace("openapi_python_client.", "") for q in comp]
+        pat, why = _cycle_pattern(ix, it, comp, edges)
+        rep.check(pat is not None, "R20.11", "cycle{" + ",".join(n.rsplit(".", 1)[-1] for n in names)[:120] + "}",
+                  f"the recursive walk {names[:4]} over the reference graph has no ranking argument ({why}): on a cyclic reference / "
+                  "dependency graph it does not terminate, so a circular (or failing, recursive) reference takes the whole run down "
+                  "instead of producing a diagnostic for the items involved", where="", lhs=names[:6],
+                  rhs="structural | fresh element | removal before recursing | growing bounded set | progress rounds")
+    rep.floor("recursive_walks_over_reference_graph", n_walks, 1)
+
     from .c08 import check_no_alias
 
     # a retried reference must find the registries as they were before the failed attempt: stated once for C08 / C12 / C20 (inplace.py)
@@ -906,6 +973,73 @@ def _possibly_true(cond: list[tuple[ast.expr, bool]], wanted: list[str]) -> tupl
         if all(bool_eval(t, env) is pol for t, pol in cond):
             can |= {w for w in wanted if env.get(w)}
     return can, other
+
+
+# ---- the reference discriminator ---------------------------------------------------------------------------------------------------------
+
+REF_KEY = "$ref"
+
+
+def _discriminates_by_presence(f: FuncInfo, ref_tag: str) -> "tuple[str, str] | None":
+    """('ok' | 'by-value' | 'unreadable', explanation) for a discriminator function; None when it has no path returning a tag"""
+    params = [a.arg for a in f.params]
+    if not params:
+        return None
+    obj = params[0]
+    expand = _Expander(Locals(f.node), set(), {})
+    paths: list[tuple[list[tuple[ast.expr, bool]], ast.expr | None, ast.Return]] = []
+    _return_paths(f.node.body, [], paths, expand)
+    if not paths:
+        return None
+
+    def kind(a: ast.expr) -> tuple[str, bool]:
+        """(role of the atom, polarity under which the role's fact holds)"""
+        if _isinstance_of(a, {obj}, lambda k: k in ("dict", "Mapping", "MutableMapping")):
+            return "mapping", True
+        if _isinstance_of(a, {obj}, lambda k: k == "Reference"):
+            return "instance", True
+        mentions = any(isinstance(x, ast.Constant) and x.value == REF_KEY for x in ast.walk(a))
+        if isinstance(a, ast.Compare) and len(a.ops) == 1 and isinstance(a.ops[0], (ast.In, ast.NotIn)) and isinstance(a.left, ast.Constant) and \
+                a.left.value == REF_KEY:
+            c = a.comparators[0]
+            if isinstance(c, ast.Call) and not c.keywords and ((isinstance(c.func, ast.Attribute) and c.func.attr == "keys" and not c.args) or
+                                                                (isinstance(c.func, ast.Name) and c.func.id in ("set", "list", "tuple", "frozenset") and len(c.args) == 1)):
+                c = c.func.value if isinstance(c.func, ast.Attribute) else c.args[0]
+            if isinstance(c, ast.Name) and c.id == obj:
+                return "present", isinstance(a.ops[0], ast.In)
+        if mentions and any((isinstance(x, ast.Call) and isinstance(x.func, ast.Attribute) and x.func.attr in ("get", "pop", "setdefault")) or
+                            isinstance(x, ast.Subscript) for x in ast.walk(a)):
+            return "value", True
+        return "unreadable", True
+
+    atoms: dict[str, tuple[str, bool]] = {}
+    for cond, _, _ in paths:
+        for t, _ in cond:
+            for a in _atom_nodes(t):
+                atoms.setdefault(norm(a), kind(a))
+    if len(atoms) > 10:
+        return "unreadable", "too many atoms"
+    names = list(atoms)
+    wrong: list[str] = []
+    for vals in itertools.product([False, True], repeat=len(names)):
+        env = dict(zip(names, vals))
+        fact = {role: {env[n] == pol for n, (r, pol) in atoms.items() if r == role} for role in ("mapping", "instance", "present")}
+        if any(len(v) > 1 for v in fact.values()):
+            continue            # two spellings of one fact disagree
+        mapping, instance, present = (next(iter(fact[r]), None) for r in ("mapping", "instance", "present"))
+        # scenario A: a mapping that has the key (it is not a Reference instance); scenario B: a Reference instance (not a mapping)
+        if not ((mapping is not False and instance is not True and present is not False and (mapping or present)) or
+                (instance is True and mapping is not True)):
+            continue
+        for cond, val, r in paths:
+            if all(bool_eval(t, env) is pol for t, pol in cond) and not (isinstance(val, ast.Constant) and val.value == ref_tag):
+                free = sorted(n for n, (role, _) in atoms.items() if role in ("value", "unreadable"))
+                wrong.append(f"returns {norm(val)} at line {r.lineno} when " + ", ".join(f"{n} is {env[n]}" for n in free or names))
+    if not wrong:
+        return "ok", ""
+    if any(role == "unreadable" for role, _ in atoms.values()):
+        return "unreadable", "; ".join(sorted(n for n, (role, _) in atoms.items() if role == "unreadable")[:3])
+    return "by-value", sorted(set(wrong))[0]
 
 
 # ---- calls: who is called, what is passed ---------------------------------------------------------------------------------------------
